@@ -9,15 +9,16 @@ PID = "C16"
 RULE = (
     "cases = Hypothesis-generated IR modules (vf/genir.py, full menu: every instruction kind and operator, undef, literals, "
     "memcpy, volatile accesses, boundary/huge constants, non-finite floats, initialised globals incl. symbol references, "
-    "blocks emitted in non-dominance order) and C front-end modules (c_to_ir on translation units assembled from 25 "
+    "blocks emitted in non-dominance order; in 40% of the functions up to three parameters / local values are renamed to the "
+    "name of a global, external or function the function does not refer to, as C shadowing produces) and C front-end modules (c_to_ir on translation units assembled from 28 "
     "fragments, optionally optimised at level 2). Oracle: from_json(to_json(m)) succeeds and the result is structurally "
     "equal to m under vf/irround.dump_module: module name; externals (kind, name, types); variables (name, binding, amount, "
     "alignment, value parts); functions (kind, name, binding, return type, parameters, entry); blocks in order; instructions "
-    "in order with kind, name, type, operands by name, origin (local/module/dangling) and type, constants by Python type and "
+    "in order with kind, name, type, operands by referent (name, owner: this function / module / dangling, kind of object, type), constants by Python type and "
     "float bit pattern, volatile flags, phi inputs as a block->value mapping. "
     "Shapes that hit an open known finding are removed from the generated module by construction (counted in excluded_known). "
-    "non-trivial = the module has an initialised global, a volatile access, a phi, or a value used before its defining block in "
-    "block order; distinct = (module description | C source, opt level)"
+    "non-trivial = the module has an initialised global, a volatile access, a phi, a value used before its defining block in "
+    "block order, or a local value named like a module-level value; distinct = (module description | C source, opt level)"
 )
 ASSUMPTIONS = [
     "structural equality as defined by vf/irround.dump_module is what 'identical module' means (debug information is not compared)",
@@ -41,6 +42,7 @@ FINDING_OF = {
     "undef": "C16-KF4",
     "fwd": "C16-KF5",
     "asm": "C16-KF6",
+    "nameclash": "C16-KF7",
 }
 
 
@@ -96,7 +98,21 @@ def classify(case, msg):
     for fid in sorted(set(FINDING_OF.values())):
         if _signature(fid, msg, feats):
             return fid
+    if "nameclash" in feats and _passes_with_unique_local_names(case):
+        return "C16-KF7"
     return None
+
+
+def _passes_with_unique_local_names(case):
+    """Model of C16-KF7: the failure is caused by a function-local name that is ambiguous with a module-level name,
+    i.e. the very same module round-trips once those local values carry fresh names."""
+    try:
+        m, _, _ = irround.build_case(case)
+        if not irround.uniquify_locals(m):
+            return False
+        return check_module(m) is None
+    except Exception:
+        return False
 
 
 def active_exclusions():
@@ -130,7 +146,7 @@ def _worker(arg):
             cap.failure_seen()
         feats = irround.module_features(m)
         classes = irround.instruction_classes(m)
-        nt = bool(feats & {"init", "volatile", "fwd"}) or "Phi" in classes
+        nt = bool(feats & {"init", "volatile", "fwd", "shadow"}) or "Phi" in classes
         hist = ["kind:" + case["kind"] + (":O" + case["opt"] if case["kind"] == "c" else "")]
         hist += ["has:" + f for f in sorted(feats)] + (["has:phi"] if "Phi" in classes else [])
         stats.case(
